@@ -492,8 +492,11 @@ Proof.
   - inversion H; subst. apply tcs_only_live; exact L.
   - destruct (nth_error (views s) i); [|discriminate]. inversion H; subst. apply tcs_only_live; exact L.
   - destruct (nth_error (views s) i); [|discriminate]. inversion H; subst. apply tcs_only_live; exact L.
-  - destruct (nth_error (views s) i) as [v|]; [|discriminate].
-    destruct (phase_eqb (vlabel v) l); [|discriminate]. inversion H; subst. exact L.
+  - destruct (nth_error (views s) i) as [v|] eqn:N; [|discriminate].
+    destruct (vlocked v).
+    + destruct (phase_eqb (vphase v) l); [|discriminate]. inversion H; subst. exact L.
+    + inversion H; subst. intros w Hw. simpl in Hw. apply in_upd in Hw. destruct Hw as [->|Hw]; [|exact (L w Hw)].
+      exact (L v (nth_error_In _ _ N)).
   - unfold view_mass_touch in H. destruct (nth_error (views s) i) as [v|] eqn:N; [|discriminate].
     inversion H; subst. apply touch_live; auto.
   - unfold view_mass_write in H. destruct (nth_error (views s) i) as [v|] eqn:N; [|discriminate].
@@ -1287,7 +1290,9 @@ Proof.
   - destruct (nth_error (views s) i); [|discriminate]. inversion H; subst. apply Same; auto. apply tcs_write_wf; exact W.
   - destruct (nth_error (views s) i); [|discriminate]. inversion H; subst. apply Same; auto. apply tcs_write_wf; exact W.
   - destruct (nth_error (views s) i) as [v|]; [|discriminate].
-    destruct (phase_eqb (vlabel v) l); [|discriminate]. inversion H; subst. apply Same; auto.
+    destruct (vlocked v).
+    + destruct (phase_eqb (vphase v) l); [|discriminate]. inversion H; subst. apply Same; auto.
+    + inversion H; subst. apply Same; auto.
   - unfold view_mass_touch in H. destruct (nth_error (views s) i); [|discriminate]. inversion H; subst.
     apply Same; auto.
   - unfold view_mass_write in H. destruct (nth_error (views s) i); [|discriminate]. inversion H; subst.
@@ -1514,8 +1519,13 @@ Proof.
   - inversion H; subst. apply stays_same. reflexivity.
   - destruct (nth_error (views s) i); [|discriminate]. inversion H; subst. apply stays_same. reflexivity.
   - destruct (nth_error (views s) i); [|discriminate]. inversion H; subst. apply stays_same. reflexivity.
-  - destruct (nth_error (views s) i) as [v|]; [|discriminate].
-    destruct (phase_eqb (vlabel v) l); [|discriminate]. inversion H; subst. apply stays_same. reflexivity.
+  - destruct (nth_error (views s) i) as [v|] eqn:N; [|discriminate].
+    destruct (vlocked v).
+    + destruct (phase_eqb (vphase v) l); [|discriminate]. inversion H; subst. apply stays_same. reflexivity.
+    + inversion H; subst. intros i0 v0 N0 Hin. simpl. destruct (Nat.eq_dec i i0) as [->|Hne].
+      * rewrite N0 in N. inversion N; subst v0. eexists.
+        split; [apply nth_error_upd_same; apply nth_error_Some; congruence|]. simpl. auto.
+      * exists v0. rewrite nth_error_upd_other by exact Hne. auto.
   - unfold view_mass_touch in H. destruct (nth_error (views s) i) as [v|] eqn:N; [|discriminate].
     inversion H; subst. eapply stays_touch; eauto.
   - unfold view_mass_write in H. destruct (nth_error (views s) i) as [v|] eqn:N; [|discriminate].
@@ -1809,8 +1819,11 @@ Proof.
   - inversion H; subst. eapply mass_same; eauto.
   - destruct (nth_error (views s) i); [|discriminate]. inversion H; subst. eapply mass_same; eauto.
   - destruct (nth_error (views s) i); [|discriminate]. inversion H; subst. eapply mass_same; eauto.
-  - destruct (nth_error (views s) i) as [v|]; [|discriminate].
-    destruct (phase_eqb (vlabel v) l); [|discriminate]. inversion H; subst. exact M.
+  - destruct (nth_error (views s) i) as [v|] eqn:N; [|discriminate].
+    destruct (vlocked v).
+    + destruct (phase_eqb (vphase v) l); [|discriminate]. inversion H; subst. exact M.
+    + inversion H; subst. intros w Hw. simpl in Hw. apply in_upd in Hw. destruct Hw as [->|Hw]; [|exact (M w Hw)].
+      intros c E. simpl in E. exact (M v (nth_error_In _ _ N) c E).
   - unfold view_mass_touch in H. destruct (nth_error (views s) i) as [v|] eqn:N; [|discriminate]. inversion H; subst.
     intros w Hw. simpl in Hw. apply in_upd in Hw. destruct Hw as [->|Hw]; [|exact (M w Hw)].
     apply touch_ok. exact (M v (nth_error_In _ _ N)).
@@ -1867,4 +1880,71 @@ Proof.
   - unfold flow; simpl. rewrite Ps, Rc. unfold write_cell. apply cellv_upd_same. eapply Hr; eauto.
   - intros p Hne. unfold flow; simpl. rewrite Ps. destruct (r p) as [c|] eqn:Rp; [|reflexivity].
     unfold write_cell. apply cellv_upd_other. intros E. apply Hne. subst c. eapply Hinj; eauto.
+Qed.
+
+(* ================= MultiStream.from_streams: the given streams are live sub-streams from the start ================= *)
+Lemma fs_index_some ss : forall p i, fs_index ss p = Some i ->
+  exists x, nth_error ss i = Some x /\ ss_phase x = p.
+Proof.
+  induction ss as [|y t IH]; intros p i H; simpl in H; [discriminate|].
+  destruct (phase_eqb (ss_phase y) p) eqn:E.
+  - inversion H; subst. exists y. split; [reflexivity|apply phase_eqb_eq; exact E].
+  - destruct (fs_index t p) as [j|] eqn:F; [|discriminate]. inversion H; subst.
+    destruct (IH p j F) as (x & Nx & Px). exists x. split; auto.
+Qed.
+
+Lemma fs_index_of ss : forall j x, distinct_phases ss = true -> nth_error ss j = Some x ->
+  fs_index ss (ss_phase x) = Some j.
+Proof.
+  induction ss as [|y t IH]; intros j x D N; [destruct j; discriminate|].
+  simpl in D. apply andb_true_iff in D. destruct D as [D1 D2].
+  destruct j as [|j]; simpl in N |- *.
+  - inversion N; subst. rewrite phase_eqb_refl. reflexivity.
+  - assert (E : phase_eqb (ss_phase y) (ss_phase x) = false).
+    { apply phase_eqb_neq. intros Eq. apply negb_true_iff in D1.
+      assert (X : existsb (fun z => phase_eqb (ss_phase z) (ss_phase y)) t = true).
+      { apply existsb_exists. exists x. split; [eapply nth_error_In; eauto|]. rewrite Eq. apply phase_eqb_refl. }
+      congruence. }
+    rewrite E. rewrite (IH j x D2 N). reflexivity.
+Qed.
+
+Lemma fs_views_in ss : forall k v, In v (fs_views ss k) ->
+  exists j x, nth_error ss j = Some x /\
+    v = mkview (ss_phase x) (k + j) 0 true (if ss_mass x then Some (k + j)%nat else None) (ss_phase x) false.
+Proof.
+  induction ss as [|y t IH]; intros k v H; simpl in H; [destruct H|].
+  destruct H as [<-|H].
+  - exists 0%nat, y. rewrite Nat.add_0_r. split; reflexivity.
+  - destruct (IH (S k) v H) as (j & x & N & E). exists (S j), x. split; [exact N|].
+    rewrite E. replace (S k + j)%nat with (k + S j)%nat by lia. reflexivity.
+Qed.
+
+Lemma hwf_map_flows n ss : Forall (fun x => length (ss_flow x) = n) ss -> hwf n (map ss_flow ss).
+Proof.
+  induction 1 as [|x t Hx Ht IH]; intros c Hc; simpl in *; [lia|].
+  destruct c as [|c]; [exact Hx|]. apply IH. lia.
+Qed.
+
+Lemma from_streams_live n mw ss s :
+  from_streams n mw ss = Ok s -> Forall (fun x => length (ss_flow x) = n) ss ->
+  wf s /\ live_inv s /\ mass_inv s /\ (proper_state s -> good s).
+Proof.
+  unfold from_streams. intros H F. destruct ss as [|y t] eqn:Ess; [discriminate|]. rewrite <- Ess in *.
+  destruct (distinct_phases ss) eqn:D; [|discriminate]. simpl in H. inversion H; subst s. clear H.
+  assert (W : wf (mkst n mw (map ss_flow ss) (map (fun x => (ss_T x, ss_P x)) ss) (Multi (fs_index ss)) 0 (fs_views ss 0) 0 [])).
+  { split; [apply hwf_map_flows; exact F|]. split; [|split; [simpl; rewrite map_length, Ess; simpl; lia|constructor]].
+    split.
+    - intros p c Hc. destruct (fs_index_some ss p c Hc) as (x & Nx & _). simpl. rewrite map_length.
+      apply nth_error_Some. congruence.
+    - intros p q c Hp Hq. destruct (fs_index_some ss p c Hp) as (x & Nx & Px).
+      destruct (fs_index_some ss q c Hq) as (x' & Nx' & Px'). congruence. }
+  split; [exact W|]. split; [|split].
+  - intros v Hv. simpl in Hv. destruct (fs_views_in ss 0 v Hv) as (j & x & N & ->). simpl.
+    split; [reflexivity|]. intros _. exists (fs_index ss). split; [reflexivity|].
+    pose proof (fs_index_of ss j x D N) as I. unfold rlookup.
+    rewrite (resolve_self (rset (fs_index ss)) (ss_phase x)) by (unfold rset; rewrite I; reflexivity).
+    exact I.
+  - intros v Hv. simpl in Hv. destruct (fs_views_in ss 0 v Hv) as (j & x & N & ->).
+    intros c E. simpl in *. destruct (ss_mass x); [inversion E; reflexivity|discriminate].
+  - intros Pr. split; [exact W|]. split; [exact Pr|constructor].
 Qed.
